@@ -1,5 +1,9 @@
 //! The dispatcher family of checks (engine S): generated registration
 //! sequences run on the real builder / dispatcher over the simulated pool.
+//!
+//! One *record* (`Replay`) = scenario + mode + strategy + run seed (+ choice
+//! trace). `eval_replay` is a pure function of the record and the code; both
+//! the search (`explore`) and replay / shrinking go through `eval_on`.
 
 use std::collections::{BTreeMap, HashSet};
 use std::sync::atomic::Ordering;
@@ -18,6 +22,10 @@ pub struct Replay {
     pub property: String,
     pub family: String,
     pub engine: String,
+    /// "run": one simulated execution; "cmp": the execution compared with the sequential
+    /// reference on the same dispatcher (C05); "static": build-time checks only
+    #[serde(default = "default_mode")]
+    pub mode: String,
     pub seed: u64,
     pub scenario: serde_json::Value,
     pub strategy: StratSpec,
@@ -26,6 +34,10 @@ pub struct Replay {
     pub class: String,
     pub msg: String,
     pub digest: u64,
+}
+
+fn default_mode() -> String {
+    "run".into()
 }
 
 #[derive(Default, Serialize, Deserialize, Clone)]
@@ -43,10 +55,12 @@ pub struct Stats {
     pub inters: HashSet<u64>,
     pub nontrivial: HashSet<u64>,
     pub overlap_pairs: u64,
-    pub kf_hits: BTreeMap<String, u64>,
+    pub class_hits: BTreeMap<String, u64>,
     pub samples: Vec<serde_json::Value>,
-    pub seeds: Vec<u64>,
+    pub seeds: u64,
+    pub first_seed: u64,
     pub max_hold_steps: u64,
+    pub extra: BTreeMap<String, u64>,
 }
 
 impl Stats {
@@ -73,8 +87,11 @@ impl Stats {
         for (k, v) in o.other_prop {
             Self::bump(&mut self.other_prop, &k, v);
         }
-        for (k, v) in o.kf_hits {
-            Self::bump(&mut self.kf_hits, &k, v);
+        for (k, v) in o.class_hits {
+            Self::bump(&mut self.class_hits, &k, v);
+        }
+        for (k, v) in o.extra {
+            Self::bump(&mut self.extra, &k, v);
         }
         self.layouts.extend(o.layouts);
         self.inters.extend(o.inters);
@@ -84,14 +101,17 @@ impl Stats {
                 self.samples.push(s);
             }
         }
-        self.seeds.extend(o.seeds);
+        if self.seeds == 0 || (o.seeds > 0 && o.first_seed < self.first_seed) {
+            self.first_seed = o.first_seed;
+        }
+        self.seeds += o.seeds;
     }
 }
 
 pub fn gen_cfg(prop: &str, rng: &mut Rng) -> GenCfg {
     let mut c = GenCfg::default();
     match prop {
-        "C04" | "C18" => {
+        "C04" => {
             c.big = rng.chance(1, 25);
             c.max_sys = 30;
         }
@@ -101,6 +121,15 @@ pub fn gen_cfg(prop: &str, rng: &mut Rng) -> GenCfg {
         "C07" => {
             c.max_sys = 10;
             c.max_depth = 3;
+        }
+        "C14" => {
+            c.max_sys = 8;
+        }
+        "C05" => {
+            c.max_sys = 10;
+        }
+        "C11" => {
+            c.max_sys = 20;
         }
         _ => {}
     }
@@ -127,11 +156,52 @@ pub fn gen_for(prop: &str, seed: u64) -> Scenario {
         tries += 1;
         sc = gen_scenario(seed.wrapping_mul(31).wrapping_add(tries), &cfg);
     }
-    if prop == "C01" || prop == "C02" || prop == "C03" || prop == "C07" {
+    if prop == "C04" && rng.chance(1, 4) {
+        // a dispatch that panicked (and was caught) must not change what the following
+        // dispatches run: arm one panic in the first call, count the later calls
+        if sc.calls.len() < 2 {
+            sc.calls.push(Call::Dispatch);
+        }
+        sc.calls[0] = if rng.chance(1, 2) { Call::Dispatch } else { Call::DispatchSeq };
+        let inf = infos(&sc.regs);
+        if !inf.is_empty() {
+            let v = inf[rng.below(inf.len() as u64) as usize].sid;
+            let kind = *rng.pick(&[FaultKind::PanicBefore, FaultKind::PanicMid, FaultKind::PanicAfter]);
+            sc.faults.push(Fault { sid: v, call: 0, kind, arg: 0 });
+        }
+    }
+    if matches!(prop, "C01" | "C02" | "C03" | "C07" | "C05") {
         // parallel calls only make these interesting
         for c in sc.calls.iter_mut() {
-            if *c == Call::DispatchTl {
+            if *c == Call::DispatchTl || (*c == Call::DispatchSeq && prop != "C05") {
                 *c = Call::Dispatch;
+            }
+        }
+    }
+    if prop == "C13" {
+        // lifecycle: removals / overwrites followed by another setup; worlds in which
+        // everything already exists
+        if rng.chance(1, 4) {
+            for p in sc.present.iter_mut() {
+                *p = true;
+            }
+        }
+        let n = sc.resmap.len();
+        let rounds = rng.below(3);
+        for _ in 0..rounds {
+            let k = 1 + rng.below(3);
+            for _ in 0..k {
+                let l = rng.below(n as u64) as usize;
+                sc.lifecycle.push(if rng.chance(2, 3) { LifeOp::Remove(l) } else { LifeOp::Put(l) });
+            }
+            sc.lifecycle.push(LifeOp::Setup);
+        }
+        if rng.chance(1, 3) {
+            // a panicking dispatch before dispose
+            let inf = infos(&sc.regs);
+            if !inf.is_empty() {
+                let v = inf[rng.below(inf.len() as u64) as usize].sid;
+                sc.faults.push(Fault { sid: v, call: 0, kind: FaultKind::PanicMid, arg: 0 });
             }
         }
     }
@@ -175,11 +245,143 @@ fn strat_name(s: &StratSpec) -> &'static str {
     }
 }
 
+/// One planned execution: the scenario variant (faults / calls / pool may differ from the base
+/// scenario; the registration sequence never does), mode, strategy, seed.
+pub struct Planned {
+    pub sc: Scenario,
+    pub mode: &'static str,
+    pub strat: StratSpec,
+    pub rs: u64,
+}
+
+fn random_strat(rng: &mut Rng, k: u64) -> StratSpec {
+    match k % 4 {
+        0 => StratSpec::Random,
+        1 => StratSpec::LowSwitch(100),
+        2 => StratSpec::Pct(1 + (rng.below(3) as u32)),
+        _ => StratSpec::RoundRobin,
+    }
+}
+
+/// Stages with at least two groups (top level or inside a hand-written-controller batch):
+/// (parent, heads of the groups)
+fn wide_stages(b: &Built) -> Vec<(Option<usize>, Vec<usize>)> {
+    let mut v = Vec::new();
+    for st in &b.layout.top {
+        if st.len() >= 2 && st.iter().all(|g| !g.is_empty()) {
+            v.push((None, st.iter().map(|g| g[0]).collect()));
+        }
+    }
+    for (p, l) in &b.layout.inner {
+        for st in l {
+            if st.len() >= 2 && st.iter().all(|g| !g.is_empty()) {
+                v.push((Some(*p), st.iter().map(|g| g[0]).collect()));
+            }
+        }
+    }
+    v
+}
+
 /// Which runs to make for one scenario.
-pub fn plan_runs(prop: &str, b: &Built, thorough: bool, rng: &mut Rng) -> Vec<(StratSpec, u64)> {
+pub fn plan_runs(prop: &str, sc: &Scenario, b: &Built, thorough: bool, rng: &mut Rng) -> Vec<Planned> {
     let infos = &b.ctx.infos;
-    let mut v: Vec<(StratSpec, u64)> = Vec::new();
-    v.push((StratSpec::MaxOverlap, rng.next_u64()));
+    let mut v: Vec<Planned> = Vec::new();
+    let mode = if prop == "C05" { "cmp" } else { "run" };
+    let mk = |sc: &Scenario, strat: StratSpec, rng: &mut Rng| Planned { sc: sc.clone(), mode, strat, rs: rng.next_u64() };
+    match prop {
+        "C14" => {
+            // fault enumeration: every system position panics once (at a seeded point), in a
+            // parallel or a sequential dispatch, followed by a recovery dispatch
+            for i in infos.iter() {
+                let points: Vec<FaultKind> = if thorough {
+                    vec![FaultKind::PanicBefore, FaultKind::PanicMid, FaultKind::PanicAfter]
+                } else {
+                    vec![*rng.pick(&[FaultKind::PanicBefore, FaultKind::PanicMid, FaultKind::PanicAfter])]
+                };
+                for kind in points {
+                    let mut s = sc.clone();
+                    let first = match rng.below(4) {
+                        0 => Call::DispatchSeq,
+                        1 => Call::DispatchPar,
+                        _ => Call::Dispatch,
+                    };
+                    s.calls = vec![first, Call::Dispatch];
+                    if rng.chance(1, 4) {
+                        s.calls.push(Call::DispatchSeq);
+                    }
+                    s.faults = vec![Fault { sid: i.sid, call: 0, kind, arg: 0 }];
+                    if rng.chance(1, 6) && infos.len() > 1 {
+                        // a second system panics in the same dispatch
+                        let j = rng.below(infos.len() as u64) as usize;
+                        if j != i.sid {
+                            s.faults.push(Fault { sid: j, call: 0, kind: FaultKind::PanicMid, arg: 0 });
+                        }
+                    }
+                    // sibling phase at the instant of the panic is the scheduler's doing
+                    let sibs: Vec<usize> = infos.iter().filter(|x| x.parent == i.parent && x.sid != i.sid && x.kind != Kind::Tl).map(|x| x.sid).collect();
+                    let strat = match rng.below(5) {
+                        0 => StratSpec::MaxOverlap,
+                        1 if !sibs.is_empty() => StratSpec::Hold(*rng.pick(&sibs)),
+                        2 => StratSpec::Hold(i.sid),
+                        3 => StratSpec::NoPreempt,
+                        _ => StratSpec::Random,
+                    };
+                    v.push(Planned { sc: s, mode: "run", strat, rs: rng.next_u64() });
+                }
+            }
+            return v;
+        }
+        "C11" => {
+            // rendezvous of all group heads of one wide stage; the pool has exactly as many
+            // workers as the stage is wide (or a few more)
+            for (parent, heads) in wide_stages(b).iter() {
+                let w = heads.len();
+                let mut s = sc.clone();
+                if !s.calls.iter().any(|c| matches!(c, Call::Dispatch | Call::DispatchPar)) {
+                    s.calls = vec![Call::Dispatch];
+                }
+                let calls: Vec<usize> = s.calls.iter().enumerate().filter(|(_, c)| matches!(c, Call::Dispatch | Call::DispatchPar)).map(|(i, _)| i).collect();
+                s.faults.clear();
+                if let Some(p) = parent {
+                    // every enclosing batch must run at least once for the heads to meet
+                    let mut q = Some(*p);
+                    let mut reachable = true;
+                    while let Some(x) = q {
+                        if infos[x].times == 0 {
+                            reachable = false;
+                        }
+                        q = infos[x].parent;
+                    }
+                    if !reachable {
+                        continue;
+                    }
+                }
+                let mut g = 0u64;
+                for &ci in &calls {
+                    for &h in heads {
+                        s.faults.push(Fault { sid: h, call: ci, kind: FaultKind::Rendezvous, arg: g });
+                    }
+                    g += 1;
+                }
+                let extra = if rng.chance(1, 2) { 0 } else { rng.below(3) as usize };
+                if rng.chance(1, 2) {
+                    s.pool.supplied = Some(w + extra);
+                } else {
+                    s.pool.supplied = None;
+                    s.pool.machine = w + extra;
+                }
+                if rng.chance(1, 5) {
+                    s.from_pool = Some(1);
+                }
+                let k = rng.below(4);
+                let strat = random_strat(rng, k);
+                v.push(Planned { sc: s, mode: "run", strat, rs: rng.next_u64() });
+            }
+            return v;
+        }
+        _ => {}
+    }
+    v.push(mk(sc, StratSpec::MaxOverlap, rng));
     let mut holds: Vec<usize> = match prop {
         "C02" => {
             let mut d: Vec<usize> = infos.iter().flat_map(|i| i.deps.iter().copied()).collect();
@@ -191,7 +393,7 @@ pub fn plan_runs(prop: &str, b: &Built, thorough: bool, rng: &mut Rng) -> Vec<(S
             let maxe = infos.iter().map(|i| i.epoch).max().unwrap_or(0);
             infos.iter().filter(|i| i.kind != Kind::Tl && i.epoch < maxe).map(|i| i.sid).collect()
         }
-        "C04" => vec![],
+        "C04" | "C13" => vec![],
         _ => infos.iter().filter(|i| i.kind != Kind::Tl).map(|i| i.sid).collect(),
     };
     let cap = if thorough { 64 } else { 16 };
@@ -201,23 +403,18 @@ pub fn plan_runs(prop: &str, b: &Built, thorough: bool, rng: &mut Rng) -> Vec<(S
         holds.sort();
     }
     for h in holds {
-        v.push((StratSpec::Hold(h), rng.next_u64()));
+        v.push(mk(sc, StratSpec::Hold(h), rng));
     }
     let nrand = if thorough { 6 } else { 3 };
     for k in 0..nrand {
-        let s = match k % 4 {
-            0 => StratSpec::Random,
-            1 => StratSpec::LowSwitch(100),
-            2 => StratSpec::Pct(1 + (rng.below(3) as u32)),
-            _ => StratSpec::RoundRobin,
-        };
-        v.push((s, rng.next_u64()));
+        let s = random_strat(rng, k);
+        v.push(mk(sc, s, rng));
     }
     v
 }
 
 /// All violations (of every property) visible in one run.
-pub fn eval_run(sc: &Scenario, b: &Built, ro: &RunOut, kf: &mut Vec<String>, overlap_pairs: &mut u64) -> Vec<Violation> {
+pub fn eval_run(sc: &Scenario, b: &Built, ro: &RunOut, overlap_pairs: &mut u64) -> Vec<Violation> {
     let infos = &b.ctx.infos;
     let mut out = Vec::new();
     let h = history(&ro.events, infos);
@@ -226,33 +423,37 @@ pub fn eval_run(sc: &Scenario, b: &Built, ro: &RunOut, kf: &mut Vec<String>, ove
     check_deps(&h, infos, &mut out);
     check_barriers(&h, infos, &mut out);
     check_counts(sc, &h, infos, ro, &mut out);
-    check_tl(&h, infos, 0, &mut out, kf);
+    check_tl(&h, infos, &ro.events, &mut out);
     check_cells_free(ro, &mut out);
+    check_panics(sc, &h, infos, ro, &ro.fired, &mut out);
     match &ro.outcome {
         detsim::Outcome::Done => {}
         o => out.push(Violation { prop: "HARNESS".into(), class: "outcome".into(), msg: format!("{:?}", o) }),
     }
     for e in &ro.escaped {
-        out.push(Violation { prop: "HARNESS".into(), class: "escaped-panic".into(), msg: e.clone() });
+        if !crate::util::is_borrow_panic(e) {
+            out.push(Violation { prop: "HARNESS".into(), class: "escaped-panic".into(), msg: e.clone() });
+        }
     }
-    if !sc.faults.iter().any(|f| matches!(f.kind, FaultKind::PanicBefore | FaultKind::PanicMid | FaultKind::PanicAfter | FaultKind::Undeclared)) {
-        for (ci, c) in ro.calls.iter().enumerate() {
-            if let Some(p) = &c.panic {
-                if !crate::util::is_borrow_panic(p) {
-                    out.push(Violation {
-                        prop: "HARNESS".into(),
-                        class: "unexpected-panic".into(),
-                        msg: format!("call #{} panicked without an injected fault: {}", ci, p.lines().next().unwrap_or("")),
-                    });
-                }
+    let injected = sc.faults.iter().any(|f| matches!(f.kind, FaultKind::PanicBefore | FaultKind::PanicMid | FaultKind::PanicAfter | FaultKind::Undeclared));
+    for (ci, c) in ro.calls.iter().enumerate() {
+        if let Some(p) = &c.panic {
+            let injected_here = injected && sc.faults.iter().any(|f| f.call == ci);
+            if !injected_here && !crate::util::is_borrow_panic(p) {
+                // a dispatch that panics without any injected fault has not run every system once
+                out.push(Violation {
+                    prop: "C04".into(),
+                    class: "dispatch-panicked".into(),
+                    msg: format!("call #{} ({:?}) panicked without an injected fault: {}", ci, c.call, p.lines().next().unwrap_or("")),
+                });
             }
         }
     }
     out
 }
 
-/// Static checks on the built structure (shape sums etc.), independent of any run.
-pub fn eval_static(prop: &str, b: &Built) -> Vec<Violation> {
+/// Static checks on the built structure (shape sums, setup), independent of any run.
+pub fn eval_static(b: &Built) -> Vec<Violation> {
     let mut out = Vec::new();
     let infos = &b.ctx.infos;
     if !b.layout.shape_ok {
@@ -288,38 +489,70 @@ pub fn eval_static(prop: &str, b: &Built) -> Vec<Violation> {
             });
         }
     }
-    // setup reached every system exactly once (C13)
+    // setup reached every system exactly once per Dispatcher::setup call (C13)
     for i in infos.iter() {
         let n = b.ctx.states[i.sid].setup.load(Ordering::SeqCst);
         // a batch's own counter is not incremented by anything (its controller has no setup hook)
-        if i.kind != Kind::Batch && n != 1 {
+        if i.kind != Kind::Batch && n != b.expected_setups {
             out.push(Violation {
                 prop: "C13".into(),
-                class: "setup-count".into(),
-                msg: format!("system {} (depth {}, {:?}) had its setup called {} time(s) by one Dispatcher::setup", i.sid, i.depth, i.kind, n),
+                class: if n < b.expected_setups { "setup-missed".into() } else { "setup-twice".into() },
+                msg: format!(
+                    "system {} ({:?} at batch depth {}) had its setup called {} time(s) by {} call(s) of Dispatcher::setup",
+                    i.sid, i.kind, i.depth, n, b.expected_setups
+                ),
             });
         }
     }
-    let _ = prop;
+    for p in &b.setup_problems {
+        out.push(Violation { prop: "C13".into(), class: "setup-world".into(), msg: p.clone() });
+    }
     out
 }
 
-pub struct Found {
-    pub replay: Replay,
+/// Dispose the dispatcher and check that every system was handed to its dispose hook once.
+pub fn eval_dispose(mut b: Built) -> Vec<Violation> {
+    let mut out = Vec::new();
+    if let Some(d) = b.disp.take() {
+        d.dispose(&mut b.world);
+    }
+    for i in b.ctx.infos.iter().filter(|i| i.kind != Kind::Batch) {
+        let n = b.ctx.states[i.sid].dispose.load(Ordering::SeqCst);
+        if n != 1 {
+            let class = match (i.depth >= 1, n == 0) {
+                (true, true) => "dispose-missed-in-batch",
+                (true, false) => "dispose-twice-in-batch",
+                (false, true) => "dispose-missed",
+                (false, false) => "dispose-twice",
+            };
+            out.push(Violation {
+                prop: "C13".into(),
+                class: class.into(),
+                msg: format!("system {} ({:?} at batch depth {}) was handed to its dispose hook {} time(s) by Dispatcher::dispose", i.sid, i.kind, i.depth, n),
+            });
+        }
+    }
+    out
 }
 
 /// What the worker is executing right now (for the fatal handler: a deadlocked run cannot
 /// return, so the record is assembled from here).
-pub static CUR: std::sync::Mutex<Option<(serde_json::Value, StratSpec, u64, u64, bool)>> = std::sync::Mutex::new(None);
+#[allow(clippy::type_complexity)]
+pub static CUR: std::sync::Mutex<Option<(serde_json::Value, String, StratSpec, u64, u64, bool)>> = std::sync::Mutex::new(None);
 
 pub fn current_record(prop: &str, class: &str, msg: String, trace: Vec<u32>) -> Option<Replay> {
     let g = CUR.lock().unwrap();
-    let (sc, strat, rs, seed, has_rdv) = g.as_ref()?.clone();
+    let (sc, mode, strat, rs, seed, has_rdv) = g.as_ref()?.clone();
     let p = if prop == "C11" || has_rdv { "C11" } else { "C04" };
+    let msg = match serde_json::from_value::<Scenario>(sc.clone()) {
+        Ok(s) if has_rdv => describe_rendezvous_failure(&s, &msg),
+        _ => msg,
+    };
     Some(Replay {
         property: p.to_string(),
         family: "D".into(),
         engine: "S".into(),
+        mode,
         seed,
         scenario: sc,
         strategy: strat,
@@ -331,20 +564,29 @@ pub fn current_record(prop: &str, class: &str, msg: String, trace: Vec<u32>) -> 
     })
 }
 
-fn mk_replay(prop: &str, seed: u64, sc: &Scenario, strat: &StratSpec, run_seed: u64, ro: Option<&RunOut>, v: &Violation) -> Replay {
-    Replay {
-        property: prop.to_string(),
-        family: "D".into(),
-        engine: "S".into(),
-        seed,
-        scenario: serde_json::to_value(sc).unwrap(),
-        strategy: strat.clone(),
-        run_seed,
-        trace: ro.map(|r| r.trace.clone()),
-        class: v.class.clone(),
-        msg: v.msg.clone(),
-        digest: ro.map(|r| log_digest(&r.events)).unwrap_or(0),
-    }
+/// Message of a rendezvous that did not complete. The shape of the input is part of the
+/// message, because that is what known findings are matched on.
+pub fn describe_rendezvous_failure(sc: &Scenario, outcome: &str) -> String {
+    let inf = infos(&sc.regs);
+    let heads: Vec<usize> = sc.faults.iter().filter(|f| f.kind == FaultKind::Rendezvous && f.arg == 0).map(|f| f.sid).collect();
+    let depth = heads.iter().filter_map(|&h| inf.get(h)).map(|i| i.depth).max().unwrap_or(0);
+    let shape = if depth >= 2 && sc.pool.supplied.is_some() {
+        "stage inside a batch nested two or more levels deep under a dispatcher with a supplied pool"
+    } else if depth >= 1 {
+        "stage inside a batch"
+    } else {
+        "top-level stage"
+    };
+    format!(
+        "the {} group heads of a {} (batch depth {}) waited for each other and the dispatch deadlocked; supplied pool: {:?} workers, default pool size: {}, dispatch called from a foreign pool worker: {}; {}",
+        heads.len(),
+        shape,
+        depth,
+        sc.pool.supplied,
+        sc.pool.machine,
+        sc.from_pool.is_some(),
+        outcome
+    )
 }
 
 fn layout_probes(b: &Built, st: &mut Stats) {
@@ -379,7 +621,6 @@ fn layout_probes(b: &Built, st: &mut Stats) {
     if depth >= 3 {
         Stats::bump(&mut st.probes, "batch_depth_3", 1);
     }
-    // dependency satisfied inside a joined group
     for i in b.ctx.infos.iter() {
         for &d in &i.deps {
             if let (Some(a), Some(c)) = (b.layout.pos[d], b.layout.pos[i.sid]) {
@@ -394,68 +635,214 @@ fn layout_probes(b: &Built, st: &mut Stats) {
     }
 }
 
-/// Explore one seed for property `prop`. Returns the first violation of that property.
-pub fn explore(prop: &str, seed: u64, thorough: bool, st: &mut Stats) -> Option<Found> {
-    let sc = gen_for(prop, seed);
-    st.scenarios += 1;
-    st.seeds.push(seed);
-    let mut rng = Rng::sub(seed, 2);
-    let mut b = build(&sc, &BuildOpts::default());
-    st.layouts.insert(fnv(b.layout.canonical().as_bytes()));
-    layout_probes(&b, st);
-    if st.samples.is_empty() {
-        st.samples.push(json!({"seed": seed, "systems": count_systems(&sc.regs), "layout": b.layout.canonical(), "calls": sc.calls, "pool": sc.pool, "regs": sc.regs}));
-    }
-    for v in eval_static(prop, &b) {
-        if v.prop == prop {
-            return Some(Found { replay: mk_replay(prop, seed, &sc, &StratSpec::NoPreempt, 0, None, &v) });
-        } else {
-            Stats::bump(&mut st.other_prop, &v.prop, 1);
+pub struct RecordOut {
+    pub violations: Vec<Violation>,
+    pub digest: u64,
+    pub trace: Vec<u32>,
+    pub steps: u64,
+    pub switches: u64,
+    pub tasks: u64,
+    pub inter_digest: u64,
+    pub overlap_pairs: u64,
+    pub max_busy: u64,
+    pub fired: Vec<(FaultKind, bool)>,
+}
+
+/// Sequential reference for C05: the same calls with the parallel part replaced by
+/// `dispatch_seq` (thread-local systems keep their place).
+fn seq_calls(calls: &[Call]) -> Vec<Call> {
+    let mut v = Vec::new();
+    for c in calls {
+        match c {
+            Call::Dispatch => {
+                v.push(Call::DispatchSeq);
+                v.push(Call::DispatchTl);
+            }
+            Call::DispatchPar => v.push(Call::DispatchSeq),
+            x => v.push(*x),
         }
     }
-    let lay_digest = fnv(b.layout.canonical().as_bytes());
-    let scj = serde_json::to_value(&sc).unwrap();
-    let has_rdv = sc.faults.iter().any(|f| f.kind == FaultKind::Rendezvous);
-    for (strat, rs) in plan_runs(prop, &b, thorough, &mut rng) {
-        *CUR.lock().unwrap() = Some((scj.clone(), strat.clone(), rs, seed, has_rdv));
-        let ro = run_calls(&mut b, &sc, &strat, rs, None);
-        st.runs += 1;
-        st.steps += ro.steps;
-        st.switches += ro.switches;
-        st.tasks += ro.tasks as u64;
-        Stats::bump(&mut st.strategies, strat_name(&strat), 1);
-        let idg = interleaving_digest(&ro.events);
-        st.inters.insert(idg);
-        let mut kf = Vec::new();
-        let mut ov = 0;
-        let vs = eval_run(&sc, &b, &ro, &mut kf, &mut ov);
-        st.overlap_pairs += ov;
-        if ov > 0 {
-            st.nontrivial.insert(crate::res::mix(lay_digest, idg));
-        }
-        for k in kf {
-            let key = k.split_whitespace().next().unwrap_or("KF").to_string();
-            Stats::bump(&mut st.kf_hits, &key, 1);
-        }
-        if ro.max_busy >= 2 {
-            Stats::bump(&mut st.probes, "two_workers_busy", 1);
-        }
-        for v in vs {
-            if v.prop == prop {
-                return Some(Found { replay: mk_replay(prop, seed, &sc, &strat, rs, Some(&ro), &v) });
-            } else {
-                Stats::bump(&mut st.other_prop, &v.prop, 1);
+    v
+}
+
+/// Execute one record's run(s) on an already built scenario.
+pub fn eval_on(b: &mut Built, sc: &Scenario, mode: &str, strat: &StratSpec, rs: u64, trace: Option<Vec<u32>>) -> RecordOut {
+    let ro = run_calls(b, sc, strat, rs, trace);
+    let mut ov = 0;
+    let mut vs = eval_run(sc, b, &ro, &mut ov);
+    if mode == "cmp" {
+        // C05: same dispatcher object, world and system states restored, sequential dispatch
+        let mut s2 = sc.clone();
+        s2.calls = seq_calls(&sc.calls);
+        s2.faults.clear();
+        let rr = run_calls(b, &s2, &StratSpec::NoPreempt, 0, None);
+        let par_panic = ro.calls.iter().filter_map(|c| c.panic.clone()).next();
+        let seq_panicked = rr.calls.iter().any(|c| c.panic.is_some());
+        if let (Some(p), false) = (&par_panic, seq_panicked) {
+            vs.push(Violation {
+                prop: "C05".into(),
+                class: "parallel-panicked".into(),
+                msg: format!("the parallel dispatch panicked ({}), the sequential dispatch of the same dispatcher did not", p.lines().next().unwrap_or("")),
+            });
+        } else if par_panic.is_none() && !seq_panicked {
+            let mut differs = false;
+            for (l, (a, c)) in ro.final_world.iter().zip(rr.final_world.iter()).enumerate() {
+                if a.map(|x| x.v) != c.map(|x| x.v) {
+                    vs.push(Violation {
+                        prop: "C05".into(),
+                        class: "world-differs".into(),
+                        msg: format!("logical resource {}: value after the parallel dispatch {:?}, after the sequential dispatch {:?}", l, a.map(|x| x.v), c.map(|x| x.v)),
+                    });
+                    differs = true;
+                    break;
+                }
+            }
+            if !differs {
+                for sid in 0..ro.final_states.len() {
+                    if ro.final_states[sid] != rr.final_states[sid] || ro.obs[sid] != rr.obs[sid] {
+                        vs.push(Violation {
+                            prop: "C05".into(),
+                            class: "system-state-differs".into(),
+                            msg: format!(
+                                "system {}: state / observation log after the parallel dispatch differs from the sequential dispatch ({} vs {} observations)",
+                                sid,
+                                ro.obs[sid].len(),
+                                rr.obs[sid].len()
+                            ),
+                        });
+                        break;
+                    }
+                }
             }
         }
     }
-    drop_built(b, st);
-    None
+    RecordOut {
+        violations: vs,
+        digest: log_digest(&ro.events),
+        trace: ro.trace,
+        steps: ro.steps,
+        switches: ro.switches,
+        tasks: ro.tasks as u64,
+        inter_digest: interleaving_digest(&ro.events),
+        overlap_pairs: ov,
+        max_busy: ro.max_busy,
+        fired: sc.faults.iter().zip(ro.fired.iter()).map(|(f, x)| (f.kind, *x)).collect(),
+    }
 }
 
-pub fn drop_built(mut b: Built, _st: &mut Stats) {
-    if let Some(d) = b.disp.take() {
-        d.dispose(&mut b.world);
+#[allow(clippy::too_many_arguments)]
+fn mk_replay(prop: &str, seed: u64, sc: &Scenario, mode: &str, strat: &StratSpec, rs: u64, trace: Option<Vec<u32>>, digest: u64, v: &Violation) -> Replay {
+    Replay {
+        property: prop.to_string(),
+        family: "D".into(),
+        engine: "S".into(),
+        mode: mode.to_string(),
+        seed,
+        scenario: serde_json::to_value(sc).unwrap(),
+        strategy: strat.clone(),
+        run_seed: rs,
+        trace,
+        class: v.class.clone(),
+        msg: v.msg.clone(),
+        digest,
     }
+}
+
+fn note_fault(st: &mut Stats, k: FaultKind, fired: bool) {
+    let name = match k {
+        FaultKind::PanicBefore => "panic_run_before",
+        FaultKind::PanicMid => "panic_run_mid",
+        FaultKind::PanicAfter => "panic_run_after",
+        FaultKind::Rendezvous => "rendezvous",
+        FaultKind::ExtraSteps => "stall_extra_steps",
+        FaultKind::Undeclared => "undeclared_fetch",
+    };
+    if fired {
+        Stats::bump(&mut st.faults, name, 1);
+    } else {
+        Stats::bump(&mut st.faults, &format!("{}_armed_not_reached", name), 1);
+    }
+}
+
+fn push_found(prop: &str, found: &mut Vec<Replay>, st: &mut Stats, v: &Violation, r: impl FnOnce() -> Replay) {
+    if v.prop == prop {
+        Stats::bump(&mut st.class_hits, &v.class, 1);
+        if !found.iter().any(|f| f.class == v.class) {
+            found.push(r());
+        }
+    } else {
+        Stats::bump(&mut st.other_prop, &v.prop, 1);
+    }
+}
+
+/// Explore one seed for property `prop`. Returns the first violation of each class.
+pub fn explore(prop: &str, seed: u64, thorough: bool, st: &mut Stats) -> Vec<Replay> {
+    let sc = gen_for(prop, seed);
+    st.scenarios += 1;
+    if st.seeds == 0 {
+        st.first_seed = seed;
+    }
+    st.seeds += 1;
+    let mut found: Vec<Replay> = Vec::new();
+    let mut rng = Rng::sub(seed, 2);
+    let mut b = build(&sc, &BuildOpts::default());
+    let lay_digest = fnv(b.layout.canonical().as_bytes());
+    st.layouts.insert(lay_digest);
+    layout_probes(&b, st);
+    if st.samples.is_empty() {
+        st.samples.push(json!({"seed": seed, "systems": count_systems(&sc.regs), "executed_layout": b.layout.canonical(), "calls": sc.calls, "pool": sc.pool, "lifecycle": sc.lifecycle, "registration_sequence": sc.regs}));
+    }
+    for v in eval_static(&b) {
+        push_found(prop, &mut found, st, &v, || mk_replay(prop, seed, &sc, "static", &StratSpec::NoPreempt, 0, None, 0, &v));
+    }
+    for p in plan_runs(prop, &sc, &b, thorough, &mut rng) {
+        let has_rdv = p.sc.faults.iter().any(|f| f.kind == FaultKind::Rendezvous);
+        *CUR.lock().unwrap() = Some((serde_json::to_value(&p.sc).unwrap(), p.mode.to_string(), p.strat.clone(), p.rs, seed, has_rdv));
+        // the pool is part of the built dispatcher: a variant with another pool gets its own
+        let mut own;
+        let bref = if p.sc.pool != sc.pool {
+            own = build(&p.sc, &BuildOpts::default());
+            &mut own
+        } else {
+            &mut b
+        };
+        let o = eval_on(bref, &p.sc, p.mode, &p.strat, p.rs, None);
+        st.runs += 1 + (p.mode == "cmp") as u64;
+        st.steps += o.steps;
+        st.switches += o.switches;
+        st.tasks += o.tasks;
+        Stats::bump(&mut st.strategies, strat_name(&p.strat), 1);
+        st.inters.insert(o.inter_digest);
+        st.overlap_pairs += o.overlap_pairs;
+        let faulted = o.fired.iter().any(|x| x.1);
+        if o.overlap_pairs > 0 || faulted {
+            st.nontrivial.insert(crate::res::mix(lay_digest, o.inter_digest));
+        }
+        for (k, f) in &o.fired {
+            note_fault(st, *k, *f);
+        }
+        if let StratSpec::Hold(_) = p.strat {
+            Stats::bump(&mut st.faults, "hold_stall", 1);
+        }
+        if p.sc.from_pool.is_some() {
+            Stats::bump(&mut st.probes, "dispatch_called_from_foreign_pool_worker", 1);
+        }
+        if o.max_busy >= 2 {
+            Stats::bump(&mut st.probes, "two_workers_busy", 1);
+        }
+        if o.max_busy >= 4 {
+            Stats::bump(&mut st.probes, "four_workers_busy", 1);
+        }
+        for v in &o.violations {
+            push_found(prop, &mut found, st, v, || mk_replay(prop, seed, &p.sc, p.mode, &p.strat, p.rs, Some(o.trace.clone()), o.digest, v));
+        }
+    }
+    *CUR.lock().unwrap() = None;
+    for v in eval_dispose(b) {
+        // a dispose problem is a property of the scenario, not of a particular run
+        push_found(prop, &mut found, st, &v, || mk_replay(prop, seed, &sc, "static", &StratSpec::NoPreempt, 0, None, 0, &v));
+    }
+    found
 }
 
 #[derive(Serialize, Deserialize, Debug)]
@@ -470,13 +857,17 @@ pub struct EvalOut {
 pub fn eval_replay(r: &Replay) -> EvalOut {
     let sc: Scenario = serde_json::from_value(r.scenario.clone()).expect("scenario");
     let mut b = build(&sc, &BuildOpts::default());
-    let mut vs = eval_static(&r.property, &b);
-    if r.trace.is_none() && r.run_seed == 0 && matches!(r.strategy, StratSpec::NoPreempt) && !vs.is_empty() {
-        return EvalOut { violations: vs, digest: 0, trace: vec![], steps: 0 };
+    let mut vs = eval_static(&b);
+    let mut digest = 0;
+    let mut trace = vec![];
+    let mut steps = 0;
+    if r.mode != "static" {
+        let o = eval_on(&mut b, &sc, &r.mode, &r.strategy, r.run_seed, r.trace.clone());
+        vs.extend(o.violations);
+        digest = o.digest;
+        trace = o.trace;
+        steps = o.steps;
     }
-    let ro = run_calls(&mut b, &sc, &r.strategy, r.run_seed, r.trace.clone());
-    let mut kf = Vec::new();
-    let mut ov = 0;
-    vs.extend(eval_run(&sc, &b, &ro, &mut kf, &mut ov));
-    EvalOut { violations: vs, digest: log_digest(&ro.events), trace: ro.trace, steps: ro.steps }
+    vs.extend(eval_dispose(b));
+    EvalOut { violations: vs, digest, trace, steps }
 }
